@@ -31,9 +31,9 @@ func c01MaxLen(tier string) int {
 
 func c01Seeded(tier string) int {
 	if tier == "thorough" {
-		return 20000
+		return 40000
 	}
-	return 1000
+	return 3000
 }
 
 const c01Block = 64
